@@ -1,6 +1,7 @@
 package main
 
 import (
+	"os"
 	"fmt"
 	"go/types"
 	"strings"
@@ -271,6 +272,9 @@ func (ex *Exec) contractCall(st *State, in ssa.CallInstruction, callee *ssa.Func
 	oldHeap := st.heap
 	oldAlloc := st.alloc()
 	mayPanic := !c.NoPanic && ex.hasDefers(st)
+	if os.Getenv("FVC_DEBUGPANIC") != "" {
+		fmt.Fprintf(os.Stderr, "DEBUGPANIC call %s NoPanic=%v hasDefers=%v\n", name, c.NoPanic, ex.hasDefers(st))
+	}
 	var pst *State
 	if mayPanic {
 		pst = st.clone()
